@@ -568,7 +568,11 @@ class _CompoundTimespanDatabaseRepresentation(TimespanDatabaseRepresentation):
     def fromLiteral(cls, timespan: Timespan | None) -> _CompoundTimespanDatabaseRepresentation:
         # Docstring inherited.
         if timespan is None:
-            return cls(nsec=(sqlalchemy.sql.null(), sqlalchemy.sql.null()), name=cls.NAME)
+            # A typed NULL: SQLAlchemy refuses to order-compare anything with
+            # the bare NULL element, but a NULL timespan must simply compare
+            # as unknown.
+            null = sqlalchemy.sql.cast(sqlalchemy.sql.null(), sqlalchemy.BigInteger)
+            return cls(nsec=(null, null), name=cls.NAME)
         return cls(
             nsec=(sqlalchemy.sql.literal(timespan.nsec[0]), sqlalchemy.sql.literal(timespan.nsec[1])),
             name=cls.NAME,
